@@ -100,8 +100,9 @@ class HouseholdWithExpectations(Household):
     def __init__(self, country, code, long_name='', alpha_income=.7, alpha_fin=.3,
                  consumption_good_name='GOOD', labour_name='LAB'):
         Household.__init__(self, country, code, long_name=long_name, alpha_income=alpha_income,
-                           alpha_fin=alpha_fin, consumption_good_name=consumption_good_name)
-        self.SetEquationRightHandSide('DEM_GOOD',
+                           alpha_fin=alpha_fin, consumption_good_name=consumption_good_name,
+                           labour_name=labour_name)
+        self.SetEquationRightHandSide('DEM_' + consumption_good_name,
                                       'AlphaIncome * EXP_AfterTax + AlphaFin * LAG_F')
         self.AddVariable('LAG_AfterTax', 'Lagged Aftertax income', 'AfterTax(k-1)')
         self.AddVariable('EXP_AfterTax', 'Expected Aftertax income', 'LAG_AfterTax')
